@@ -26,7 +26,8 @@ def to_model(shape):
             props = [tuple(p) for p in (o[4] if len(o) > 4 and o[4] else [])]
             props = [(n, t, tuple(v) if isinstance(v, list) else v) for (n, t, v) in props]
             strings = o[5] if len(o) > 5 else None
-            objs.append(tm.Obj(path, kind, tcode, nv, props, strings))
+            values = [[bytes.fromhex(v) for v in chunk] for chunk in o[6]] if len(o) > 6 and o[6] else None
+            objs.append(tm.Obj(path, kind, tcode, nv, props, strings, values))
         segs.append(tm.Seg(objs, s.get('nchunks', 1), meta=s.get('meta', True), newobj=s.get('newobj', True),
                            inter=s.get('inter', False), big=s.get('big', False), trunc=s.get('trunc', 0),
                            unknown_len=s.get('unknown_len', False), version=s.get('version', 4713),
